@@ -261,6 +261,30 @@ def check_w5(case):
         data = [{"reactions": s, "k": i} for i, s in enumerate(rx)] + [{"reactions": rx[0] + ".O", "k": 99}]
         want = [bc.BalanceReactionCheck.rsmi_balance_check(d["reactions"]) for d in data]
 
+        # the same records checked twice, on two columns with different verdicts, serially (in-process, the caller's own dicts) and in cut batches
+        for d in data:
+            d["other"] = d["reactions"] + ".[Na+]" if d["k"] % 2 == 0 else d["reactions"]
+        want2 = [bc.BalanceReactionCheck.rsmi_balance_check(d["other"]) for d in data]
+
+        def history(jobs):
+            recs = [dict(d) for d in data]
+            ok = True
+            for col, w in (("reactions", want), ("other", want2), ("reactions", want)):
+                b, u = bc.BalanceReactionCheck(n_jobs=jobs).dicts_balance_check(recs, rsmi_column=col)
+                got = {d["k"]: d["balanced"] for d in b + u}
+                ok = ok and [got[d["k"]] for d in data] == w and [d["k"] for d in b] == [d["k"] for d, x in zip(data, w) if x]
+            return ok
+
+        orig0 = bc.Parallel
+        bc.Parallel = VirtualParallel
+        VirtualParallel.chooser = None
+        try:
+            for jobs in (1, 4):
+                if not history(jobs):
+                    fails.append(Fail("balance_check_history", f"n_jobs={jobs}: the same records checked on column 'reactions', then 'other', then 'reactions' again", "per-row verdicts of the column asked for", key_extra=str(jobs)))
+        finally:
+            bc.Parallel = orig0
+
         def run(ch):
             VirtualParallel.chooser = ch
             orig = bc.Parallel
